@@ -178,17 +178,64 @@ pub fn parse_and_resolve_includes<S>(
 
     // Recursively find and replace our `#include` AST nodes
     // with the full ASTs of the included files
+    resolve_includes_in_nodes(
+        report,
+        fileserver,
+        root_filename.borrow(),
+        &mut root_ast.nodes,
+        seen_filenames,
+        once_filenames)?;
+
+    Ok(root_ast)
+}
+
+
+fn resolve_includes_in_nodes(
+    report: &mut diagn::Report,
+    fileserver: &mut dyn util::FileServer,
+    root_filename: &str,
+    nodes: &mut Vec<AstAny>,
+    seen_filenames: &mut Vec<String>,
+    once_filenames: &mut std::collections::HashSet<String>)
+    -> Result<(), ()>
+{
     let mut node_index = 0;
-    while node_index < root_ast.nodes.len()
+    while node_index < nodes.len()
     {
-        let node = &root_ast.nodes[node_index];
+        // The arms of an `#if` can hold `#include` nodes as well
+        if let AstAny::DirectiveIf(ast_if) = &mut nodes[node_index]
+        {
+            resolve_includes_in_nodes(
+                report,
+                fileserver,
+                root_filename,
+                &mut ast_if.true_arm.nodes,
+                seen_filenames,
+                once_filenames)?;
+
+            if let Some(false_arm) = &mut ast_if.false_arm
+            {
+                resolve_includes_in_nodes(
+                    report,
+                    fileserver,
+                    root_filename,
+                    &mut false_arm.nodes,
+                    seen_filenames,
+                    once_filenames)?;
+            }
+
+            node_index += 1;
+            continue;
+        }
+
+        let node = &nodes[node_index];
 
         if let AstAny::DirectiveInclude(ast_include) = node
         {
             let included_filename = util::filename_navigate(
                 report,
                 ast_include.filename_span,
-                root_filename.borrow(),
+                root_filename,
                 &ast_include.filename)?;
 
 
@@ -214,7 +261,7 @@ pub fn parse_and_resolve_includes<S>(
 
             let inner_ast_len = inner_ast.nodes.len();
 
-            root_ast.nodes.splice(
+            nodes.splice(
                 node_index..(node_index + 1),
                 inner_ast.nodes);
 
@@ -230,7 +277,7 @@ pub fn parse_and_resolve_includes<S>(
         }
     }
 
-    Ok(root_ast)
+    Ok(())
 }
 
 
